@@ -75,9 +75,15 @@ EAGER_DEFAULT = False
 WARN_ERROR_DEFAULT = False
 
 
+# ... or the application has silenced the library's warnings (logger level ERROR), for every
+# ninth case.
+QUIET_DEFAULT = False
+
+
 def attach_log(log, debug=False):
     _CAPTURE.log = log
-    _ROOT.setLevel(logging.DEBUG if (debug or DEBUG_DEFAULT) else logging.WARNING)
+    _ROOT.setLevel(logging.DEBUG if (debug or DEBUG_DEFAULT) else
+                   logging.ERROR if QUIET_DEFAULT else logging.WARNING)
 
 
 def world(debug_logging=False):
